@@ -1,7 +1,7 @@
 from props import job
 
 PROP = dict(
-    technique='rapid: exhaustive small shachain trees + structured sampling of the 2^48 index space against an independent BOLT-3 derivation (incl. corrupted/out-of-order secrets and serialisation round trips); release rule checked at every revoke_and_ack hand-out of the C01-C03 machine against a fresh DB read',
+    technique='rapid: exhaustive small shachain trees + structured sampling of the 2^48 index space against an independent BOLT-3 derivation (incl. corrupted/out-of-order secrets and serialisation round trips); release rule checked at every revoke_and_ack hand-out of the C01-C03 machine against a fresh DB read, under injected database write failures (sign / revoke / receive-revocation must hand out nothing), and the commitment point sent on reconnect compared with the own derivation chain',
     level="exploration",
     rule=("(a) shachain: rapid draws a seed and either inserts secrets 0..N-1 "
           "sequentially (every insert = one evaluation; full scan + serialisation "
